@@ -1,2 +1,8 @@
 import Ymq.Props.C01
+#print axioms Ymq.C01.factor_no_one
 #print axioms Ymq.C01.factor_sound
+#print axioms Ymq.C01.retain_residue_one
+#print axioms Ymq.C01.combineDiv_prod
+#print axioms Ymq.C01.combineDiv_no_panic
+#print axioms Ymq.C01.factorImpl_prod
+#print axioms Ymq.C01.factor_exact
